@@ -1,29 +1,32 @@
 #!/bin/bash
-# usage: seedverify.sh <property id> [seed-name]
-# 1. confirms in the agent's scratch worktree that the seeded change keeps the suite green and that the
-#    demonstration fails with it and passes without it; 2. applies it to /repo, runs the property's check, reverts.
+# usage: seedverify.sh <property id> [seed-name]      (PHASE=a|b|ab, default ab)
+# a. confirms in the agent's scratch worktree that the seeded change keeps the suite green and that the
+#    demonstration fails with it and passes without it; b. applies it to /repo, runs the property's check, reverts.
 set -u
-ID=$1; NAME=${2:-$ID}
+ID=$1; NAME=${2:-$ID}; PHASE=${PHASE:-ab}
 WT=/tmp/wt/$NAME; OUT=/tmp/wt/out-$NAME; DEST=/verif/seeded/$NAME
 export CARGO_NET_OFFLINE=true
 mkdir -p $DEST
-cp $OUT/patch.diff $DEST/patch.diff
-cp $OUT/demo.rs $DEST/demo.rs 2>/dev/null
-cp $OUT/meta.json $DEST/agent-meta.json 2>/dev/null
-cd $WT || exit 2
-git checkout -q -- . 2>/dev/null; git clean -fdq rasn-compiler-tests/tests 2>/dev/null
-# clean tree: demo passes
-cp $DEST/demo.rs rasn-compiler-tests/tests/demo.rs
-cargo test --offline -p rasn-compiler-tests --test demo > $DEST/demo-clean.log 2>&1; DEMO_CLEAN=$?
-git apply $DEST/patch.diff || { echo "patch does not apply"; exit 2; }
-cargo test --offline -p rasn-compiler-tests --test demo > $DEST/demo-patched.log 2>&1; DEMO_PATCHED=$?
-rm -f rasn-compiler-tests/tests/demo.rs
-cargo test --workspace --no-fail-fast --offline > $DEST/suite-patched.log 2>&1; SUITE=$?
-git checkout -q -- .
-# now against /repo with the harness
-cd /repo && git status --short | grep -q . && { echo "/repo not clean"; exit 2; }
-git -C /repo apply $DEST/patch.diff
-cd /verif && ./check $ID --tier quick > $DEST/check.log 2>&1; CHECK=$?
-git -C /repo checkout -- .
-echo "demo_clean=$DEMO_CLEAN demo_patched=$DEMO_PATCHED suite_patched=$SUITE check_exit=$CHECK"
-grep -E "^VIOLATION" $DEST/check.log | head -3
+if [[ $PHASE == *a* ]]; then
+  cp $OUT/patch.diff $DEST/patch.diff
+  cp $OUT/demo.rs $DEST/demo.rs 2>/dev/null
+  cp $OUT/meta.json $DEST/agent-meta.json 2>/dev/null
+  cd $WT || exit 2
+  git checkout -q -- . 2>/dev/null; git clean -fdq rasn-compiler-tests/tests 2>/dev/null
+  cp $DEST/demo.rs rasn-compiler-tests/tests/demo.rs
+  cargo test --offline -p rasn-compiler-tests --test demo > $DEST/demo-clean.log 2>&1; DEMO_CLEAN=$?
+  git apply $DEST/patch.diff || { echo "patch does not apply"; exit 2; }
+  cargo test --offline -p rasn-compiler-tests --test demo > $DEST/demo-patched.log 2>&1; DEMO_PATCHED=$?
+  rm -f rasn-compiler-tests/tests/demo.rs
+  cargo test --workspace --no-fail-fast --offline > $DEST/suite-patched.log 2>&1; SUITE=$?
+  git checkout -q -- .
+  echo "demo_clean=$DEMO_CLEAN demo_patched=$DEMO_PATCHED suite_patched=$SUITE" > $DEST/phase-a.txt
+fi
+if [[ $PHASE == *b* ]]; then
+  cd /repo && git status --short | grep -q . && { echo "/repo not clean"; exit 2; }
+  git -C /repo apply $DEST/patch.diff
+  cd /verif && VERIF_OUT=/tmp/wt/vout-$NAME ./check $ID --tier quick > $DEST/check.log 2>&1; CHECK=$?
+  git -C /repo checkout -- .
+  echo "$(cat $DEST/phase-a.txt) check_exit=$CHECK"
+  grep -E "^VIOLATION" $DEST/check.log | head -3
+fi
